@@ -747,6 +747,13 @@ func selectionSites(c *Ctx, ruleOri, ruleScan string, ihp *ssa.Function) {
 			// scan completeness
 			b := topBlockOf(cef.Act, cef.Ins)
 			l := innermostLoop(loops, b)
+			inHelper := false
+			if l == nil && cef.Act != nil {
+				// the scan sits in a helper outside the vocabulary expanded into this function
+				if l2, la := loopAround(s, cef.Act, cef.Ins); l2 != nil && la != s {
+					l, inHelper = l2, true
+				}
+			}
 			if l == nil {
 				c.Fail(ruleScan, key+": scan", site.Pos(), "UNDECIDED: the selection is not inside a loop over the candidates")
 				continue
@@ -759,6 +766,10 @@ func selectionSites(c *Ctx, ruleOri, ruleScan string, ihp *ssa.Function) {
 					continue // exhaustion
 				}
 				early++
+				if inHelper {
+					bad = append(bad, "the scan in the helper can be left before the candidates are exhausted")
+					continue
+				}
 				// every return reachable from this exit must return nil pointers
 				for _, r := range s.Rets {
 					if !reaches(ex[1], blockOfPos(fn, r.Pos)) {
